@@ -40,9 +40,13 @@ struct E2E {
   explicit E2E(vh::Out &o) : out(o) {}
 
   void run(const std::string &id, const Circuit &input, const vd::Params &prm) {
+    run(id, input, prm, vd::runCase(input, prm));
+  }
+
+  // `r` = what vd::runCase(input, prm) returned (possibly computed by a worker process)
+  void run(const std::string &id, const Circuit &input, const vd::Params &prm, const vd::Run &r) {
     out.evaluations++;
     std::string inp = vd::caseString(input, prm);
-    vd::Run r = vd::runCase(input, prm);
     out.count("e2e_legalize_" + r.legalizeStatus);
     out.count(prm.nonDefault ? "e2e_params_nondefault" : "e2e_params_effort");
     if (prm.p.detailed.reorderingMaxNbCells >= 2) out.count("e2e_reordering_on");
@@ -413,10 +417,23 @@ static void primitivesChild(std::ostream &os, const Circuit &input, const vd::Pa
 struct Prim {
   vh::Out &out;
   explicit Prim(vh::Out &o) : out(o) {}
-  void run(const std::string &id, const Circuit &input, const vd::Params &prm, vh::Rng g, int nOps) {
-    out.evaluations++;
+  // the forked part of a case, as one string: status, stderr tail, child output
+  static std::string compute(const Circuit &input, const vd::Params &prm, vh::Rng g, int nOps) {
     std::string txt, diag;
     std::string st = vh::isolated([&](std::ostream &os) { primitivesChild(os, input, prm, g, nOps); }, txt, 120, &diag);
+    return st + "\n" + std::to_string(diag.size()) + "\n" + diag + txt;
+  }
+
+  void run(const std::string &id, const Circuit &input, const vd::Params &prm, vh::Rng g, int nOps) {
+    run(id, input, prm, compute(input, prm, g, nOps));
+  }
+
+  void run(const std::string &id, const Circuit &input, const vd::Params &prm, const std::string &blob) {
+    out.evaluations++;
+    size_t p1 = blob.find('\n'), p2 = blob.find('\n', p1 + 1);
+    std::string st = blob.substr(0, p1);
+    size_t dl = (size_t)atoll(blob.substr(p1 + 1, p2 - p1 - 1).c_str());
+    std::string diag = blob.substr(p2 + 1, dl), txt = blob.substr(p2 + 1 + dl);
     std::string inp = vd::caseString(input, prm);
     if (st != "ok") {
       out.count("prim_child_" + st);
@@ -526,22 +543,73 @@ int main(int argc, char **argv) {
   }
   long long nE = a.thorough() ? 30000 : (a.search() ? 12000 : 1600);
   long long nP = a.thorough() ? 20000 : (a.search() ? 0 : 1200);
-  for (long long k = 0; k < nE; ++k) {
-    if (a.only >= 0 && k != a.only) continue;
+  // The forked part of every case (legalize / placeDetailed / the primitive operations under the
+  // sanitizers) runs in worker processes on all cores; the parent consumes the results in case order,
+  // so ops.txt / impl.txt / oracle.txt / stats.json are those of a sequential run.
+  const int jobs = a.only >= 0 ? 1 : vd::ParallelBlobs::defaultWorkers();
+  auto e2eCase = [&](long long k, Circuit &c, vd::Params &p) {
     vh::Rng g = vh::Rng::forCase(a.seed, k);
     vc::GenOpts o = optsFor(g, k);
-    Circuit c = vc::genCircuit(g, o);
-    vd::Params p = vd::genParams(g, k % 2 == 1);
-    e2e.run("e" + std::to_string(k), c, p);
-  }
-  for (long long k = 0; k < nP; ++k) {
-    if (a.only >= 0) break;
-    vh::Rng g = vh::Rng::forCase(a.seed ^ 0x5bd1e995u, k);
+    c = vc::genCircuit(g, o);
+    p = vd::genParams(g, k % 2 == 1);
+  };
+  auto primCase = [&](long long k, Circuit &c, vd::Params &p, vh::Rng &g) {
+    g = vh::Rng::forCase(a.seed ^ 0x5bd1e995u, k);
     vc::GenOpts o = optsFor(g, k);
     if (k % 3 == 0) o.maxUtil = 0.6;
-    Circuit c = vc::genCircuit(g, o);
-    vd::Params p = vd::genParams(g, false);
-    prim.run("p" + std::to_string(k), c, p, g, a.thorough() ? 60 : 40);
+    c = vc::genCircuit(g, o);
+    p = vd::genParams(g, false);
+  };
+  const int nOps = a.thorough() ? 60 : 40;
+  if (a.only >= 0) {
+    if (a.only < nE) {
+      Circuit c(0);
+      vd::Params p;
+      e2eCase(a.only, c, p);
+      e2e.run("e" + std::to_string(a.only), c, p);
+    }
+  } else {
+    {
+      vd::ParallelBlobs par(a.out + "/par-e-", nE, jobs, [&](long long k) {
+        Circuit c(0);
+        vd::Params p;
+        e2eCase(k, c, p);
+        return vd::serializeRun(vd::runCase(c, p));
+      });
+      for (long long k = 0; k < nE; ++k) {
+        Circuit c(0);
+        vd::Params p;
+        e2eCase(k, c, p);
+        std::string blob;
+        vd::Run r;
+        if (par.get(k, blob) && vd::parseRun(blob, r)) e2e.run("e" + std::to_string(k), c, p, r);
+        else {
+          out.count("e2e_recomputed_in_parent");
+          e2e.run("e" + std::to_string(k), c, p);
+        }
+      }
+    }
+    {
+      vd::ParallelBlobs par(a.out + "/par-p-", nP, jobs, [&](long long k) {
+        Circuit c(0);
+        vd::Params p;
+        vh::Rng g = vh::Rng::forCase(0, 0);
+        primCase(k, c, p, g);
+        return Prim::compute(c, p, g, nOps);
+      });
+      for (long long k = 0; k < nP; ++k) {
+        Circuit c(0);
+        vd::Params p;
+        vh::Rng g = vh::Rng::forCase(0, 0);
+        primCase(k, c, p, g);
+        std::string blob;
+        if (par.get(k, blob)) prim.run("p" + std::to_string(k), c, p, blob);
+        else {
+          out.count("prim_recomputed_in_parent");
+          prim.run("p" + std::to_string(k), c, p, g, nOps);
+        }
+      }
+    }
   }
   if (a.thorough() && a.only < 0) c02x::runAll(out);
   out.finish();
